@@ -72,6 +72,12 @@ Theorem gemfile_roundtrip : forall rs l,
 Proof. exact gemfile_roundtrip_lemma. Qed.
 Print Assumptions gemfile_roundtrip.
 
+(* fix (gemfilelock returns scanner.Err()): a line of 64 KiB or more yields an error, never a silently
+   truncated package list (regression witness: KNOWN_FINDINGS.d/C03.json gemfilelock-long-line-truncates) *)
+Theorem gemfile_long_line_is_error : forall s, snd (scan_lines s) = true -> exists e, parse_gemfile s = Err e.
+Proof. exact gemfile_long_line_lemma. Qed.
+Print Assumptions gemfile_long_line_is_error.
+
 Definition ex_gem_rs : list gem_sec :=
   [ {| sec_kind := KGit; sec_specs := [ {| gs_name := [102;111;111]; gs_version := [49;46;48]; gs_platform := None |} ] |};
     {| sec_kind := KGem; sec_specs := [ {| gs_name := [97;115;116]; gs_version := [50;46;52]; gs_platform := Some [106;97;118;97] |};
@@ -210,8 +216,7 @@ Proof. vm_compute. reflexivity. Qed.
 (* package-lock.json, lockfileVersion 2 and 3 ("packages" map; a v2 file's legacy "dependencies" tree is
    ignored by the extractor): any number of registry packages installed at node_modules/<name> under any
    prefix (hoisted, nested, workspace), plain and @scope/name names recovered from the path, the root
-   entry "" skipped.  Version 1 (nested "dependencies") is covered by the correspondence run and the
-   expected_v1 oracle only. *)
+   entry "" skipped.  Version 1 (nested "dependencies"): packagelock_v1_struct_exact below. *)
 Theorem packagelock_struct_exact : forall root rs, wf_packagelock rs = true ->
   extract_packagelock (struct_of_packagelock root rs) = Ok (expected_packagelock rs).
 Proof. exact packagelock_struct_exact_lemma. Qed.
@@ -226,9 +231,41 @@ Example packagelock_example_run :
   extract_packagelock (struct_of_packagelock true ex_npm_rs) = Ok [([64;115;47;110], [49;46;48]); ([108], [50])].
 Proof. vm_compute. reflexivity. Qed.
 
-(* go.mod: every requirement (distinct module paths, leading v removed) plus the stdlib entry carrying the
-   go directive's version.  replace / toolchain directives: correspondence only. *)
+(* package-lock.json, lockfileVersion 1: the nested "dependencies" tree, any depth and width; with plain
+   registry versions every (name, version) of the tree is reported, each exactly once (the same package nested
+   at several places is one package); dev / optional flags only feed the dependency-group metadata. *)
+Theorem packagelock_v1_struct_exact : forall ds, wf_packagelock_v1 ds = true ->
+  exists out, extract_packagelock {| ns_packages := None; ns_dependencies := ds |} = Ok out /\
+              NoDup out /\ forall p, In p out <-> In p (flat_v1_all ds).
+Proof. exact packagelock_v1_struct_exact_lemma. Qed.
+Print Assumptions packagelock_v1_struct_exact.
+
+Definition ex_v1 : list (bytes * npm_dep) :=
+  [ ([97], NDep [49] [] (Some [([98], NDep [50] [] None); ([99], NDep [51] [] (Some [([98], NDep [50] [] None)]))]));
+    ([98], NDep [50] [] None) ].
+Example packagelock_v1_example :
+  wf_packagelock_v1 ex_v1 = true /\
+  extract_packagelock {| ns_packages := None; ns_dependencies := ex_v1 |} = Ok [([98], [50]); ([99], [51]); ([97], [49])].
+Proof. vm_compute. split; reflexivity. Qed.
+
+(* go.mod (x/mod/modfile output): every requirement (distinct module paths, leading v removed), rewritten by the
+   replace directive that applies to it (any version / the stated version; replacement = another module
+   with a version, or a local directory without one), plus the stdlib entry carrying the toolchain
+   directive's version or else the go directive's.  Domain: at most one replace per old path, replacement
+   paths pairwise different and different from every required / replaced path (else the extractor merges). *)
 Theorem gomod_struct_exact : forall rs, wf_gomod rs = true ->
   extract_gomod (struct_of_gomod rs) = Ok (expected_gomod rs).
 Proof. exact gomod_struct_exact_lemma. Qed.
 Print Assumptions gomod_struct_exact.
+
+Definition ex_gomod : gomod_recs :=
+  {| gq_requires := [([97], [49;46;48]); ([98], [50;46;48]); ([99], [51])];
+     gq_replaces := [ {| rr_old := [97]; rr_oldv := []; rr_new := [120]; rr_newv := [57] |};
+                      {| rr_old := [98]; rr_oldv := [50;46;48]; rr_new := [46;46;47;108]; rr_newv := [] |};
+                      {| rr_old := [99]; rr_oldv := [52]; rr_new := [121]; rr_newv := [49] |} ];
+     gq_go := [49;46;50;49]; gq_toolchain := [103;111;49;46;50;50;46;51;45;120] |}.
+Example gomod_example_wf : wf_gomod ex_gomod = true.
+Proof. vm_compute. reflexivity. Qed.
+Example gomod_example_run :
+  extract_gomod (struct_of_gomod ex_gomod) = Ok [([120], [57]); ([46;46;47;108], []); ([99], [51]); ([115;116;100;108;105;98], [49;46;50;50;46;51])].
+Proof. vm_compute. reflexivity. Qed.
